@@ -255,6 +255,16 @@ def invariant_edits(c, tmpdir):
         c.same('all-non-geometry-dropped', rebuild(ds, drop=droppable))
     if model.time is not None and model.time['size'] > 1:
         c.same('time-cut-to-one-step', ds.isel({model.time['dim']: [0]}))
+    if model.time is not None:
+        # one time step picked by number: the time coordinate stays behind as a scalar coordinate
+        k = int(rng.integers(model.time['size']))
+        c.same('one-time-step-selected', ds.isel({model.time['dim']: k}))
+    # coordinates that are not geometry: a scalar one (reference time of the run) and an auxiliary one on the grid's own
+    # dimensions (cell area); they travel with every selection of variables but are no part of the geometry
+    face = model.kinds[model.default_kind]
+    c.same('non-geometry-coordinates-added', ds.assign_coords(
+        vmon_reference=xarray.Variable((), float(rng.integers(1, 1000)), {'long_name': 'reference'}),
+        vmon_area=xarray.Variable(face.dims, rng.random(face.shape), {'long_name': 'cell area', 'units': 'm2'})))
     choice = int(rng.integers(3))
     if choice == 0:
         attrs = dict(ds.attrs, history='edited by vmon', title='another title')
